@@ -139,6 +139,7 @@ def run_property(pid, tier, seed):
             else:
                 out["violations"].append((v, ob, r))
             continue
+        sts = [x for x in sts if x != "skipped-after-refutation"]
         if any(s == "error" for s in sts):
             out["gaps"].append({"kernel": kern, "reason": "solver error on %s: %s" % (
                 name, [r["detail"] for _, r in lst if r["status"] == "error"][:1])})
@@ -151,7 +152,7 @@ def run_property(pid, tier, seed):
 
 
 def write_replay(pid, v, ob, r):
-    d = os.path.join(VERIF, "replays", pid)
+    d = os.path.join(os.environ.get("CXXVC_REPLAY_DIR", os.path.join(VERIF, "replays")), pid)
     os.makedirs(d, exist_ok=True)
     path = os.path.join(d, slug("%s__%s" % (v["kernel"], v["obligation"])) + ".json")
     k = ob.kobj
@@ -208,8 +209,9 @@ def evidence(out, seed):
     ev = {"property_id": pid, "tier": out["tier"], "seed": seed, "level": level, "coverage": cov,
           "assumptions": prop.get("assumptions", []), "wall_s": out.get("wall_s", 0.0),
           "violations": len(out["violations"])}
-    os.makedirs(os.path.join(VERIF, "evidence"), exist_ok=True)
-    with open(os.path.join(VERIF, "evidence", pid + ".json"), "w") as fh:
+    evd = os.environ.get("CXXVC_EVIDENCE_DIR", os.path.join(VERIF, "evidence"))
+    os.makedirs(evd, exist_ok=True)
+    with open(os.path.join(evd, pid + ".json"), "w") as fh:
         json.dump(ev, fh, indent=1, default=str)
 
 
